@@ -1,5 +1,10 @@
 import Qryn.LogQL.Process
 import Driver.C07
+import Driver.C11
+import Driver.C08
+import Qryn.LogQL.ProcessMetric
+import Qryn.LogQL.ProcessFormat
+import Qryn.TraceQL.Process
 namespace Driver.C14
 open Qryn Qryn.Sql Qryn.LogQL Driver.C07
 
@@ -10,7 +15,80 @@ def ctxs? : Nat → List String → Option (List Ctx × List String)
     let (cs, rest') ← ctxs? n rest
     some (c :: cs, rest')
 
+/-! ### TraceQL: one prepared plan processed k times -/
+def tctxs? : Nat → List String → Option (List Qryn.TraceQL.Ctx × List String)
+  | 0, rest => some ([], rest)
+  | n + 1, toks => do
+    let (c, rest) ← Driver.C11.ctx? toks
+    let (cs, rest') ← tctxs? n rest
+    some (c :: cs, rest')
+
+/-- garbage in every field the theorems allow to hold anything (`isAliased` stays reset) -/
+def garbageTree : Qryn.TraceQL.PTree → Qryn.TraceQL.PTree
+  | .simple sc pfx _ _ =>
+    .simple sc pfx ⟨[.raw "GARBAGE", .raw "MORE"], [.raw "GARBAGE"], false, "garbage"⟩ ⟨"424242.000000"⟩
+  | .complex a k l r => .complex a k (garbageTree l) (garbageTree r)
+
+/-- `runsT`, optionally putting garbage into the planner fields before every execution after the first -/
+def runsTDirty (dirty : Bool) (p : Qryn.TraceQL.PTree) : List Qryn.TraceQL.Ctx → List (Qryn.TraceQL.PlanM Sel)
+  | [] => []
+  | c :: cs =>
+    let r := Qryn.TraceQL.processPlan p c
+    r.2 :: runsTDirty dirty (if dirty then garbageTree r.1 else r.1) cs
+
+/-! ### LineFormatPlanner.ProcessTpl called k times on one object -/
+def tplNode? (s : String) : Option TplNode :=
+  match s.splitOn ":" with
+  | ["T", h] => do some (.text (← ofHex h))
+  | ["F", h] => do some (.field (← ofHex h))
+  | _ => none
+
+def tpl? (s : String) : Option (Option (List TplNode)) :=
+  if s = "ERR" then some none
+  else if s = "-" then some (some [])
+  else do some (some (← (s.splitOn ";").mapM tplNode?))
+
+def showFmt : Option (Bytes × List Bytes) → String
+  | none => "ERR"
+  | some (f, args) => hexOut f ++ ":" ++ (if args.isEmpty then "-" else ".".intercalate (args.map hexOut))
+
+def garbageFmt : FmtState := ⟨[71, 65, 82, 66, 65, 71, 69], [[71], [77]]⟩
+
+/-- `runsTpl processTpl`, optionally with garbage in the fields before every call after the first -/
+def runsTplDirty (dirty : Bool) (st : FmtState) (tpl : Option (List TplNode)) : Nat → List (Option (Bytes × List Bytes))
+  | 0 => []
+  | n + 1 =>
+    let r := processTpl st tpl
+    (if r.2 then some r.1.out else none) :: runsTplDirty dirty (if dirty then garbageFmt else r.1) tpl n
+
+/-! ### metric LogQL: one prepared plan processed k times -/
+def mctxs? : Nat → List String → Option (List MCtx × List String)
+  | 0, rest => some ([], rest)
+  | n + 1, toks => do
+    let (c, rest) ← Driver.C08.mctx? toks
+    let (cs, rest') ← mctxs? n rest
+    some (c :: cs, rest')
+
 def handle : List String → Option String
+  | ["c14fmt", dirty, n, t] => do
+    let k ← n.toNat?
+    let tpl ← tpl? t
+    some (",".intercalate ((runsTplDirty (dirty = "1") {} tpl k).map showFmt))
+  | "c14runm" :: n :: args => do
+    let k ← n.toNat?
+    let (cs, rest) ← mctxs? k args
+    let (q, _) ← Driver.C08.query? rest
+    some (",".intercalate ((runsMetric {} q cs).map (fun s => hexOut (renderSel s))))
+  | "c14runt" :: dirty :: n :: args => do
+    let k ← n.toNat?
+    let (cs, rest) ← tctxs? k args
+    match rest with
+    | [sc] => do
+      let script ← Driver.C11.parseScript sc
+      match Qryn.TraceQL.prepare script with
+      | .error _ => some (",".intercalate (cs.map (fun _ => "ERR")))
+      | .ok p => some (",".intercalate ((runsTDirty (dirty = "1") p cs).map Driver.C11.out))
+    | _ => none
   | "c14run" :: n :: args => do
     let k ← n.toNat?
     let (cs, rest) ← ctxs? k args
